@@ -426,7 +426,12 @@ func (e *c19Env) runCase(c c19Case) *c19Result {
 				os.WriteFile(filepath.Join(outs[k], f), stale, 0o644)
 			}
 		}
-		cmd := exec.Command(e.fitgen, append(append([]string{}, args...), input, outs[k])...)
+		inArg, outArg := input, outs[k]
+		if k == 1 {
+			// ... and names its input and output relative to the working directory (the first run uses absolute paths)
+			inArg, outArg = filepath.Base(input), "out2"
+		}
+		cmd := exec.Command(e.fitgen, append(append([]string{}, args...), inArg, outArg)...)
 		cmd.Dir = dir
 		cmd.Env = e.env
 		out, err := cmd.CombinedOutput()
